@@ -461,6 +461,86 @@ def r8_printed_nul(run, F):
            "printed string is dropped" % (nul_unsafe, specs))
 
 
+def r10_format_splice(run, F):
+    """A string literal prints as its own bytes only if it never becomes part of a C format string with a `%` in it.  Every place
+    of the generator that appends user bytes to FormatBuffer.format (`format.extend(..)` / `format.push(..)` of bytes that
+    derive from a literal or from the function's text parameter) must be guarded by `bytes.iter().all(is_snprintf_safe)`
+    (or sit behind the assert of the same), and is_snprintf_safe, folded over all 256 bytes, must be false for `%`."""
+    from rules import bytefn
+    safe = F.body("alpha::generator::is_snprintf_safe")
+    t = bytefn.table(safe)
+    run.ob("R10-FORMAT-SPLICE", "is_snprintf_safe('%')", t[37] is False, F.where(safe), "`%%` must not be snprintf-safe (it would be read as a conversion)")
+    n = 0
+    # add_specifier is the one place that appends a conversion on purpose: its argument is always a literal conversion
+    spec_fns = [p for p in F.lib.bodies if p.endswith("::add_specifier")]
+    run.require(len(spec_fns) == 1, "FormatBuffer::add_specifier not found")
+    for p, b in sorted(F.lib.bodies.items()):
+        if "hir" not in b or not F.rel(b["file"]).endswith("alpha/generator.rs"):
+            continue
+        for c in hirq.calls(b["hir"]):
+            if (hirq.callee(c) or "") == spec_fns[0]:
+                a = hirq.unwrap_trivial(c["a"][0]) if c.get("a") else {}
+                run.ob("R10-FORMAT-SPLICE", "add_specifier(%r)" % (a.get("v"),), a.get("k") == "Lit" and str(a.get("v", "")).startswith("%"), F.where(b, c),
+                       "add_specifier is called with a literal conversion specification only")
+    for p, b in sorted(F.lib.bodies.items()):
+        if "hir" not in b or not F.rel(b["file"]).endswith("alpha/generator.rs") or p == spec_fns[0]:
+            continue
+
+        def visit(node, guarded):
+            nonlocal n
+            if isinstance(node, list):
+                for x in node:
+                    visit(x, guarded)
+                return
+            if not isinstance(node, dict):
+                return
+            k = node.get("k")
+
+            def has_guard(e):
+                return any((hirq.callee(c) or "").endswith("::is_snprintf_safe") or
+                           any(x.get("k") == "Path" and str(x.get("res", "")).endswith("::is_snprintf_safe") for x in walk(c)) for c in hirq.calls(e))
+            if k == "Match":
+                visit(node["scrut"], guarded)
+                for a in node["arms"]:
+                    g2 = guarded or ("guard" in a and has_guard(a["guard"]))
+                    visit(a["body"], g2)
+                return
+            if k == "If":
+                visit(node["cond"], guarded)
+                visit(node["then"], guarded or has_guard(node["cond"]))
+                if node.get("else") is not None:
+                    visit(node["else"], guarded)
+                return
+            if k == "Block":
+                g2 = guarded
+                for st in node.get("stmts", []):
+                    visit(st, g2)
+                    # an assert!(bytes.iter().all(is_snprintf_safe)) guards what follows it in the block
+                    if any(hirq.panic_kind(c) == "assert" for c in hirq.calls(st)) and has_guard(st):
+                        g2 = True
+                    for x in walk(st):
+                        if x.get("k") == "If" and has_guard(x.get("cond", {})) and any(y.get("k") == "Ret" for y in walk(x.get("else") or {})):
+                            g2 = True
+                if node.get("e") is not None:
+                    visit(node["e"], g2)
+                return
+            if k == "MethodCall" and node.get("name") in ("extend", "extend_from_slice", "push") and \
+                    hirq.unwrap_trivial(node["recv"]).get("k") == "Field" and hirq.unwrap_trivial(node["recv"]).get("name") == "format":
+                arg = node["a"][0] if node.get("a") else {}
+                lit_only = all(x.get("k") in ("Lit", "AddrOf", "Index", "Struct", "Array", "Call", "MethodCall", "Path", "Cast", "DropTemps") for x in walk(arg)) and \
+                    not any(x.get("k") == "Path" and x.get("rk") == "Local" for x in walk(arg))
+                if not lit_only:
+                    n += 1
+                    run.ob("R10-FORMAT-SPLICE", "%s|format.%s" % (p.split("::")[-1], node["name"]), guarded, F.where(b, node),
+                           "user bytes are appended to the snprintf format string only under `all(is_snprintf_safe)`: a `%%` in a string "
+                           "literal would otherwise be interpreted by snprintf")
+            for key, v in node.items():
+                if isinstance(v, (dict, list)):
+                    visit(v, guarded)
+        visit(b["hir"], False)
+    run.floor("R10-FORMAT-SPLICE", 3, "is_snprintf_safe('%') and the places that append user bytes to the format string")
+
+
 def r9_radix_needs_digit(run, F, A):
     """`0x` / `0b` followed by no digit is not a literal: the first-generation lexer says so by pushing the radix letter into
     the suffix, which then fails the suffix table (E141).  For every `match u128::from_str_radix(&literal, R)` of the scanner:
@@ -517,3 +597,4 @@ def check(run):
     r6_generator(run, F)
     r7_string_bytes(run, F)
     r8_printed_nul(run, F)
+    r10_format_splice(run, F)
